@@ -1,6 +1,7 @@
 package props
 
 import (
+	"bytes"
 	"errors"
 	"fmt"
 	"io"
@@ -25,7 +26,11 @@ import (
 
 func c15hammer(env *core.Env, cs c15case, idx int, res *core.CaseResult) {
 	r := rand.New(rand.NewSource(env.Seed*23_000_009 + int64(idx)))
-	switch cs.Rep % 5 {
+	switch cs.Rep % 7 {
+	case 5:
+		c15hammerWholeWrites(r, cs, res)
+	case 6:
+		c15hammerShrinkVsReaders(r, cs, res)
 	case 4:
 		c15hammerGrowObserver(r, cs, res)
 	case 0:
@@ -291,6 +296,201 @@ func c15hammerCrossCopy(r *rand.Rand, cs c15case, res *core.CaseResult) {
 	res.Nontrivial = true
 	res.Count("hammer_crosscopy_programs", 1)
 	res.Count("hammer_ops", int(atomic.LoadInt64(&copies)))
+}
+
+// c15hammerWholeWrites: the file keeps its size; every write replaces the WHOLE contents with one letter (a single
+// WriteAt of 4 KiB .. 200 KiB), every read takes a range in one ReadAt. Each call is one operation, so whatever order the
+// calls took effect in, a read returns bytes of ONE write: two letters in one read is a torn write or a torn read.
+func c15hammerWholeWrites(r *rand.Rand, cs c15case, res *core.CaseResult) {
+	m, _ := mem.NewFS()
+	size := []int{4096, 70 << 10, 130 << 10, 200 << 10}[r.Intn(4)]
+	_ = hackpadfs.WriteFullFile(m, "f", []byte(strings.Repeat("i", size)), 0o644)
+	writers, readers := 1+r.Intn(2), 2+r.Intn(3)
+	iters := (100 + r.Intn(100)) * (1 + (256<<10)/size/8)
+	var mu sync.Mutex
+	problems := map[string]string{}
+	report := func(kind, msg string) {
+		mu.Lock()
+		if _, ok := problems[kind]; !ok {
+			problems[kind] = msg
+		}
+		mu.Unlock()
+	}
+	var stop int32
+	var ops int64
+	var wg sync.WaitGroup
+	body := func() {
+		var wwg sync.WaitGroup
+		for w := 0; w < writers; w++ {
+			wg.Add(1)
+			wwg.Add(1)
+			go func(w int) {
+				defer wg.Done()
+				defer wwg.Done()
+				f, err := hackpadfs.OpenFile(m, "f", os.O_RDWR, 0)
+				if err != nil {
+					report("setup", err.Error())
+					return
+				}
+				defer func() { _ = f.Close() }()
+				var bufs [13][]byte
+				for l := range bufs {
+					bufs[l] = bytes.Repeat([]byte{byte('A' + w*13 + l)}, size)
+				}
+				for i := 0; i < iters; i++ {
+					buf := append([]byte(nil), bufs[i%13]...) // (the harness scribbles over nothing here, but a caller may reuse its buffer)
+					n, err := hackpadfs.WriteAtFile(f, buf, 0)
+					atomic.AddInt64(&ops, 1)
+					if err != nil || n != size {
+						report("write-result", fmt.Sprintf("WriteAt of %d bytes at 0 on a file of that size returned n=%d, %v", size, n, err))
+						return
+					}
+				}
+			}(w)
+		}
+		go func() { wwg.Wait(); atomic.StoreInt32(&stop, 1) }()
+		for k := 0; k < readers; k++ {
+			wg.Add(1)
+			go func(k int) {
+				defer wg.Done()
+				rr := rand.New(rand.NewSource(int64(k) + 5))
+				f, err := m.Open("f")
+				if err != nil {
+					report("setup", err.Error())
+					return
+				}
+				defer func() { _ = f.Close() }()
+				buf := make([]byte, size)
+				for atomic.LoadInt32(&stop) == 0 {
+					off := 0
+					if rr.Intn(2) == 0 {
+						off = rr.Intn(size / 2)
+					}
+					n, err := hackpadfs.ReadAtFile(f, buf[:size-off], int64(off))
+					atomic.AddInt64(&ops, 1)
+					if n != size-off || (err != nil && err != io.EOF) {
+						report("read-result", fmt.Sprintf("ReadAt of %d bytes at %d on a file that always holds %d bytes returned n=%d, %v", size-off, off, size, n, err))
+						return
+					}
+					if bytes.Count(buf[:n], buf[:1]) == n {
+						continue
+					}
+					for j := 1; j < n; j++ {
+						if buf[j] != buf[0] {
+							report("torn", fmt.Sprintf("one ReadAt of %d bytes at offset %d returned %q up to byte %d and %q from there on: parts of two different %d-byte writes, each of which replaced the whole contents in one call", n, off, buf[0], off+j, buf[j], size))
+							return
+						}
+					}
+				}
+			}(k)
+		}
+		wg.Wait()
+	}
+	hung, confirmed := withWatchdog(body)
+	atomic.StoreInt32(&stop, 1)
+	wit := map[string]any{"case": cs, "readers": readers, "writers": writers, "size": size, "iterations": iters}
+	switch {
+	case hung && confirmed:
+		res.Violate("C15|hammer-whole-writes|deadlock", "writers/readers of one file stopped making progress; the goroutine dump shows them parked on locks", wit)
+	case hung:
+		res.Inconclusive = "hammer program did not finish, no blocked-state witness"
+	}
+	for kind, msg := range problems {
+		res.Violate("C15|hammer-whole-writes|"+kind, msg, wit)
+	}
+	res.Nontrivial = true
+	res.Count("hammer_whole_write_programs", 1)
+	res.Count("hammer_ops", int(atomic.LoadInt64(&ops)))
+}
+
+// c15hammerShrinkVsReaders: round after round a fresh file full of 'x' is read by goroutines with their own handles
+// while one Truncate(0) through another handle empties it. Nothing ever writes anything else and nothing grows the
+// file, so a read returns 'x' bytes (it took effect before the truncation) or nothing; any other byte is contents the
+// file never had.
+func c15hammerShrinkVsReaders(r *rand.Rand, cs c15case, res *core.CaseResult) {
+	m, _ := mem.NewFS()
+	size := []int{4096, 64 << 10, 256 << 10}[r.Intn(3)]
+	rounds := 120 + r.Intn(120)
+	readers := 2 + r.Intn(2)
+	full := []byte(strings.Repeat("x", size))
+	var mu sync.Mutex
+	problems := map[string]string{}
+	report := func(kind, msg string) {
+		mu.Lock()
+		if _, ok := problems[kind]; !ok {
+			problems[kind] = msg
+		}
+		mu.Unlock()
+	}
+	var ops int64
+	body := func() {
+		for round := 0; round < rounds; round++ {
+			name := fmt.Sprintf("f%d", round)
+			if err := hackpadfs.WriteFullFile(m, name, full, 0o644); err != nil {
+				report("setup", err.Error())
+				return
+			}
+			var stop int32
+			var wg sync.WaitGroup
+			started := make(chan struct{}, readers)
+			for k := 0; k < readers; k++ {
+				wg.Add(1)
+				go func() {
+					defer wg.Done()
+					f, err := m.Open(name)
+					if err != nil {
+						report("setup", err.Error())
+						started <- struct{}{}
+						return
+					}
+					defer func() { _ = f.Close() }()
+					buf := make([]byte, size)
+					first := true
+					for atomic.LoadInt32(&stop) == 0 || first {
+						n, err := hackpadfs.ReadAtFile(f, buf, 0)
+						atomic.AddInt64(&ops, 1)
+						if first {
+							first = false
+							started <- struct{}{}
+						}
+						if err != nil && err != io.EOF {
+							continue // (a read overlapping the shrink failing outright is the recorded finding F69)
+						}
+						for j := 0; j < n && bytes.Count(buf[:n], []byte{'x'}) != n; j++ {
+							if buf[j] != 'x' {
+								report("foreign-bytes", fmt.Sprintf("a ReadAt on a %d-byte file of 'x' that another handle truncates to 0 returned n=%d with byte %q at offset %d: contents the file never had", size, n, buf[j], j))
+								return
+							}
+						}
+					}
+				}()
+			}
+			for k := 0; k < readers; k++ {
+				<-started
+			}
+			if h, err := hackpadfs.OpenFile(m, name, os.O_RDWR, 0); err == nil {
+				_ = hackpadfs.TruncateFile(h, 0)
+				_ = h.Close()
+			}
+			atomic.StoreInt32(&stop, 1)
+			wg.Wait()
+			_ = hackpadfs.Remove(m, name)
+		}
+	}
+	hung, confirmed := withWatchdog(body)
+	wit := map[string]any{"case": cs, "readers": readers, "size": size, "rounds": rounds}
+	switch {
+	case hung && confirmed:
+		res.Violate("C15|hammer-shrink-vs-readers|deadlock", "readers and the truncating handle stopped making progress; the goroutine dump shows them parked on locks", wit)
+	case hung:
+		res.Inconclusive = "hammer program did not finish, no blocked-state witness"
+	}
+	for kind, msg := range problems {
+		res.Violate("C15|hammer-shrink-vs-readers|"+kind, msg, wit)
+	}
+	res.Nontrivial = true
+	res.Count("hammer_shrink_vs_readers_programs", 1)
+	res.Count("hammer_ops", int(atomic.LoadInt64(&ops)))
 }
 
 // c15hammerFile: readers and positional writers against truncation of the same file, each through its own handle.
